@@ -595,6 +595,18 @@ while an exchange is open and writes right after NEWKEYS (`C11_partial_delivery`
 `clear_to_send` is cleared would lose the credit for good: the peer's window shrinks with every re-exchange. -/
 theorem window_credit_parked_not_dropped : Generated.C11.recvSendsEveryComputedAck = true := by decide
 
+/-- **Who writes past the send gate** (AST of transport.py, read on every run): `_send_message` is called directly only
+by the gate itself (`_send_user_message`), by code that runs on the transport thread as part of the exchange or as a
+handler (`run`, `_send_kex_init`, `_activate_outbound`, `_parse_global_request`, `_parse_channel_open` — the last two
+are the `reply-during-kex` findings) and by `ServiceRequestingTransport.ensure_session` (before authentication).  No
+user-facing sender — `global_request` in either form, `open_channel`, `send_ignore`, … — is on the list: user threads
+reach the wire through `_send_user_message` only, which is what `send_gate_window_clean` and `C11_partial` rely on. -/
+theorem only_exchange_code_bypasses_the_gate :
+    Generated.C11.sendMessageCallers =
+      ["Transport._send_user_message", "Transport.run", "Transport._send_kex_init", "Transport._activate_outbound",
+       "Transport._parse_global_request", "Transport._parse_channel_open",
+       "ServiceRequestingTransport.ensure_session"] := by decide
+
 end Gate
 
 end PV.Props.C11
